@@ -187,8 +187,9 @@ func C14(c *Ctx) {
 	// helpers that set in-progress without running the executor may only be called by entry points that do run it
 	cg := c.P.CallGraph()
 	for _, helper := range []string{"initiateFailover", "initiateFailback"} {
-		f := c.fn(pkg, "FailoverController", helper)
-		if f == nil {
+		// optional anchors: a helper written out into its (analysed) entry point is covered by that entry point's transitions
+		f := c.P.SSAFunc(pkg, "FailoverController", helper)
+		if f == nil || len(f.Blocks) == 0 {
 			continue
 		}
 		for _, caller := range allCallers(cg, f) {
